@@ -9,8 +9,10 @@ func (p *Parser) parseDocElement() (INode, *Error) {
 		n := &nodeHTML{token: t}
 		left := p.PeekTypeN(-1, TokenSymbol)
 		right := p.PeekTypeN(1, TokenSymbol)
-		n.trimLeft = left != nil && left.TrimWhitespaces
-		n.trimRight = right != nil && right.TrimWhitespaces
+		if !t.verbatim {
+			n.trimLeft = left != nil && left.TrimWhitespaces
+			n.trimRight = right != nil && right.TrimWhitespaces
+		}
 		p.Consume() // consume HTML element
 		return n, nil
 	case TokenSymbol:
